@@ -50,6 +50,8 @@ def gen_world(rng):
     N = {"k": "struct", "name": "N" + hashlib.sha1(json.dumps(fields, sort_keys=True).encode()).hexdigest()[:8], "fields": fields}
     if rng.random() < 0.4:
         N["field_decl"] = True; N["name"] = "F" + N["name"][1:]       # fields declared through xo.Field(...)
+        if rng.random() < 0.5 and any(f[0] == "r" for f in fields):
+            N["ref_defaults"] = {"r": G.gen_value(rng, L0)}; N["name"] = "G" + N["name"][1:]
     if rng.random() < 0.3:
         inner["field_decl"] = True; inner["name"] = "J" + inner["name"][1:]
     D = {"k": "struct", "name": "D" + N["name"][1:], "fields": [["d", {"k": "ref", "target": N}], ["k", {"k": "scalar", "name": "Int64"}]]}
